@@ -34,7 +34,7 @@ PROPS["C03"] = dict(
     assumptions=["secrets are inspected in the fields of AddrManager/ManagedAddress that exist on the pinned tree", "Go garbage (already dropped copies) is out of scope"],
 )
 PROPS["C05"] = dict(
-    pkgs=[KS], level="exploration", death_is_violation=True,
+    pkgs=[KS, "poc/engine/spacekeeper/capacity"], level="exploration", death_is_violation=True,
     quick=dict(checks=400, shards=16, timeout=400),
     thorough=dict(checks=12000, shards=16, timeout=2400),
     technique="property-based testing: rapid-generated wallet histories, signatures judged by the chain library's pocec verification (independent of the wallet's VerifySig)",
@@ -83,7 +83,7 @@ PROPS["C14"] = dict(
 )
 
 PROPS["C06"] = dict(
-    pkgs=[KS], race_pkgs=[KS], level="exploration", death_is_violation=True, engine="rapid-harness+race-detector",
+    pkgs=[KS, "poc/engine/spacekeeper/capacity"], race_pkgs=[KS], level="exploration", death_is_violation=True, engine="rapid-harness+race-detector",
     quick=dict(checks=480, shards=12, timeout=500, race_checks=320, race_shards=8),
     thorough=dict(checks=16000, shards=16, timeout=2400, race_checks=12000, race_shards=16),
     technique="property-based testing: rapid-generated issuance histories vs. reference model of ordinals; generated concurrent issuance bursts under the race detector with a multiset oracle on ordinals",
